@@ -905,8 +905,20 @@ func (e *Engine) enter(s *State, f *Frame, from, to *ssa.BasicBlock) {
 			}
 		}
 	}
+	evalVariant := func() Term {
+		fn := e.lookupFunc(f.fn.Pkg, ann.Decr)
+		return e.evalPure(s, fn, e.specArgs(s, f, fn, nil), nil).(Term)
+	}
 	if back {
 		evalInvs("preserved", false)
+		if ann.Decr != "" { // termination: the variant is non-negative at the head and strictly smaller at the back edge
+			v0, ok := f.entry[fmt.Sprintf("$variant%d", ord)].(Term)
+			if !ok {
+				panic("no variant snapshot for loop " + fmt.Sprint(ord))
+			}
+			v1 := evalVariant()
+			e.oblig(s, fmt.Sprintf("%s.loop%d.variant", f.fn.Name(), ord), and(ile(intT(0), v0), ilt(v1, v0)))
+		}
 		e.loopFrameCheck(s, f, ann, fmt.Sprintf("%s.loop%d", f.fn.Name(), ord))
 		s.dead, s.done = true, true
 		return
@@ -914,6 +926,20 @@ func (e *Engine) enter(s *State, f *Frame, from, to *ssa.BasicBlock) {
 	evalInvs("entry", false)
 	e.havoc(s, f, to, ann)
 	evalInvs("", true)
+	// head<ord>_<x>: the value of local x at the head of THIS iteration of loop <ord> (nameable in the invariants of
+	// inner loops and in variants), and the variant's value there
+	for k, c := range f.entry {
+		if strings.HasPrefix(k, "$cell:") {
+			if cell, ok := c.(*Cell); ok {
+				if v, ok := s.cellv[cell]; ok {
+					f.entry[fmt.Sprintf("head%d_%s", ord, k[6:])] = v
+				}
+			}
+		}
+	}
+	if ann.Decr != "" {
+		f.entry[fmt.Sprintf("$variant%d", ord)] = evalVariant()
+	}
 }
 
 // loopFrame records a cut loop: what was allocated when it was entered and which objects its body may write.
@@ -1049,6 +1075,8 @@ func (e *Engine) specArgs(s *State, f *Frame, fn *ssa.Function, results []Val) [
 				panic("no entry snapshot for " + nm)
 			}
 			args = append(args, v)
+		case strings.HasPrefix(nm, "head") && strings.Contains(nm, "_") && f.entry[nm] != nil:
+			args = append(args, f.entry[nm])
 		case strings.HasPrefix(nm, "res") && results != nil:
 			var i int
 			fmt.Sscanf(nm, "res%d", &i)
